@@ -156,6 +156,19 @@ def int_to_intc(src: str) -> Optional[Tuple[str, Dict[int, int]]]:
     return "\n".join(out) + "\n", m
 
 
+def int_to_intc_unresolvable(src: str) -> Optional[Tuple[str, Dict[int, int]]]:
+    """Like int_to_intc, but the constant block is loaded twice: tealer then cannot tell which
+    block an intc refers to and must treat every constant as unknown (the AVM uses the last
+    intcblock executed, which here is identical)."""
+    r = int_to_intc(src)
+    if r is None:
+        return None
+    ls = _lines(r[0])
+    out = ls[:2] + [ls[1]] + ls[2:]
+    m = {k: (v if v <= 2 else v + 1) for k, v in r[1].items()}
+    return "\n".join(out) + "\n", m
+
+
 def pad_statements(src: str) -> Optional[Tuple[str, Dict[int, int]]]:
     """Insert `int 7; pop` at statement boundaries: before a line at which the block-local
     stack depth is 0, that is not a label and does not follow a branch/terminator/label-less
